@@ -427,9 +427,7 @@ Qed.
 
 End Laws.
 
-(* ---------- bounded channel: a push that would overflow the channel waits for the background goroutine ---------- *)
-(* Blocking only removes schedules; the theorems above hold for all of them. [respects_cap] says that a given
-   run never holds more than C batches in the channel (used for non-vacuity and by the checker's schedules). *)
-Definition chan_ok (prm : params) (s : mstate) : bool := length (m_chan _ _ s) <=? pC prm.
+(* Bounded channel: a Push that would overflow fullBufferWriterChan waits until the background goroutine has
+   received a batch. Blocking only removes schedules; the theorems above hold for all of them. *)
 
 End Front.
